@@ -138,3 +138,28 @@ package syncx
 //@ func (Limit).Borrow
 //@   prop C18
 //@   ensures [one-slot] calls(on("send", l.pool)) == 1
+
+// ManagedResource.Take: a resource seen under the read lock is returned; otherwise the decision is taken again
+// under the write lock (another goroutine may have generated it meanwhile): generate runs only if it is still
+// missing then, and what is stored is what is returned.
+//@ func (*ManagedResource).Take
+//@   prop C18
+//@   guards mr.lock: mr.resource
+//@   requires mr != nil
+//@   let lk = on("lock", mr.lock)
+//@   ensures [fast-path] at(lk, mr.resource, 1) != nil ==> result == at(lk, mr.resource, 1) && calls(mr.generate) == 0 && calls(lk) == 1
+//@   ensures [rechecked-under-write-lock] at(lk, mr.resource, 1) == nil && at(lk, mr.resource, 2) != nil ==> result == at(lk, mr.resource, 2) && calls(mr.generate) == 0
+//@   ensures [generated-once-when-still-missing] at(lk, mr.resource, 1) == nil && at(lk, mr.resource, 2) == nil ==> calls(mr.generate) == 1 && mr.resource == ret(mr.generate) && result == ret(mr.generate)
+//@   ensures [locks-released] calls(lk) == calls(on("unlock", mr.lock))
+//@ func (*ManagedResource).MarkBroken
+//@   prop C18
+//@   requires mr != nil
+//@   ensures [only-the-current-one-is-dropped] calls(mr.equal) == 1 && arg(mr.equal, 1) == resource && (ret(mr.equal) ==> mr.resource == nil) && before(on("lock", mr.lock), mr.equal)
+// Pool / Limit / TimeoutLimit construction.
+//@ func NewLimit
+//@   prop C18
+//@   ensures [n-slots] result.pool != nil
+//@ func (*Cond).Signal
+//@   prop C18
+//@   requires c != nil
+//@   ensures [never-blocks-at-most-one-waiter-woken] calls("send") <= 1 && calls("recv") == 0
